@@ -26,6 +26,7 @@ type Sel struct {
 	Sub    *SelSet `json:"sub"`
 
 	ArgText string `json:"-"` // rendered verbatim after the field name, e.g. "(n: 4)"
+	RName   string `json:"-"` // the field's name in the query text when it differs from the logical Name
 }
 
 type Frag struct {
@@ -66,6 +67,46 @@ var schema = map[string]map[string]ftype{
 	"B": {"id": {"Int", false}, "y": {"Int", false}, "tag": {"String", false}, "a": {"A", false}, "as": {"A", true}},
 }
 
+// Unions lists the member types of every union of the schema the generator works on.
+var unions = map[string][]string{"U": {"A", "B"}}
+
+// UseSchema points the generator at another logical schema (fields per object type, members per union).
+func UseSchema(fields map[string]map[string][2]interface{}, us map[string][]string) {
+	schema = map[string]map[string]ftype{}
+	for t, fs := range fields {
+		schema[t] = map[string]ftype{}
+		for f, d := range fs {
+			schema[t][f] = ftype{typ: d[0].(string), list: d[1].(bool)}
+		}
+	}
+	unions = us
+	rendered = map[string][2]string{}
+	dupBias = 0
+}
+
+// rendered maps "Type.logicalField" to (real field name, argument text): a field with arguments is,
+// for the reference, one logical field per argument value (scaled2 = scaled(by: 2)).
+var rendered = map[string][2]string{}
+
+// dupBias (percent) is how often a selection with sub-selections is emitted a second time with a
+// different sub-selection under the same response key.
+var dupBias = 0
+
+// UseRendered registers logical fields that render as a real field with arguments; UseDupBias sets dupBias.
+func UseRendered(m map[string][2]string) { rendered = m }
+func UseDupBias(pct int)                 { dupBias = pct }
+
+// NewGen returns a query generator (for other drivers).
+func NewGen(r *rand.Rand, dirs bool) *Gen {
+	return &Gen{g: &gen{r: r, dirs: dirs, defs: map[string]*SelSet{}, defOn: map[string]string{}}}
+}
+
+// Gen is the exported face of the generator.
+type Gen struct{ g *gen }
+
+func (g *Gen) SelSet(root string, depth int) *SelSet { return g.g.selset(root, depth) }
+func (g *Gen) Render(ss *SelSet) string              { return g.g.Render(ss) }
+
 func fieldNames(t string) []string {
 	var ns []string
 	for n := range schema[t] {
@@ -75,7 +116,7 @@ func fieldNames(t string) []string {
 	return ns
 }
 
-func isScalar(t string) bool { return t == "Int" || t == "String" }
+func isScalar(t string) bool { _, obj := schema[t]; _, un := unions[t]; return !obj && !un }
 
 type gen struct {
 	r     *rand.Rand
@@ -107,7 +148,7 @@ func (g *gen) dirsFor() []Dir {
 // selset generates a selection set for a value of (object or union) type t.
 func (g *gen) selset(t string, depth int) *SelSet {
 	ss := emptySet()
-	if t == "U" {
+	if members, ok := unions[t]; ok {
 		if g.r.Intn(3) == 0 {
 			ss.Sels = append(ss.Sels, &Sel{Alias: "__typename", Name: "__typename", Dirs: []Dir{}, Sub: emptySet()})
 		}
@@ -116,7 +157,7 @@ func (g *gen) selset(t string, depth int) *SelSet {
 			n = 1
 		}
 		for i := 0; i < n; i++ {
-			m := []string{"A", "B"}[g.r.Intn(2)]
+			m := members[g.r.Intn(len(members))]
 			ss.Frags = append(ss.Frags, g.frag(m, depth))
 		}
 		return ss
@@ -135,11 +176,21 @@ func (g *gen) selset(t string, depth int) *SelSet {
 			if g.r.Intn(5) == 0 {
 				s.Alias = "z" + f
 			}
+			if rn, ok := rendered[t+"."+f]; ok {
+				s.RName, s.ArgText = rn[0], rn[1]
+			}
 			if !isScalar(ft.typ) {
 				s.HasSub = true
 				s.Sub = g.selset(ft.typ, depth-1)
 			}
 			ss.Sels = append(ss.Sels, s)
+			if s.HasSub && dupBias > 0 && g.r.Intn(100) < dupBias {
+				// the same response key again, with its own sub-selection (and its own directives)
+				d := *s
+				d.Dirs = g.dirsFor()
+				d.Sub = g.selset(ft.typ, depth-1)
+				ss.Sels = append(ss.Sels, &d)
+			}
 		case x < 8:
 			s := &Sel{Name: "__typename", Alias: "__typename", Dirs: []Dir{}, Sub: emptySet()}
 			if g.r.Intn(3) == 0 {
@@ -207,10 +258,14 @@ func renderSet(ss *SelSet, b *strings.Builder) {
 	b.WriteString("{")
 	for _, s := range ss.Sels {
 		b.WriteString(" ")
-		if s.Alias != s.Name {
+		rn := s.Name
+		if s.RName != "" {
+			rn = s.RName
+		}
+		if s.Alias != rn {
 			b.WriteString(s.Alias + ": ")
 		}
-		b.WriteString(s.Name)
+		b.WriteString(rn)
 		b.WriteString(s.ArgText)
 		b.WriteString(renderDirs(s.Dirs))
 		if s.HasSub {
